@@ -11,8 +11,24 @@ from runtime import corpus, infer, spec_c
 from runtime.harness import Harness
 
 
+class StrProxy:
+    """A transparent string proxy (lazy-translation string style): reports str as its class without being one."""
+    def __init__(self, s):
+        self._s = s
+
+    @property
+    def __class__(self):
+        return str
+
+    def __hash__(self):
+        return hash(self._s)
+
+    def __eq__(self, other):
+        return isinstance(other, StrProxy) and other._s == self._s
+
+
 def dict_values(rnd, n):
-    out = []
+    out = [{StrProxy("a"): 1}, {StrProxy("a"): 1, StrProxy("b"): "x"}, [{StrProxy("a"): 1}], {"outer": {StrProxy("k"): 0}}]
     keysets = [[], ["a"], ["a", "b"], ["a", "b", "c"], ["k%d" % i for i in range(12)], [1], ["a", 1], [("t",)], ["a", "b", "c", "d"]]
     for ks in keysets:
         d = {k: rnd.choice([0, "s", None, [1], {"x": 1}, {"x": 1, "y": 2}, {}]) for k in ks}
@@ -46,8 +62,12 @@ def run(ctx):
     for k in (0, 1, 2, 3, 10):
         groups = [(v,) for v in vals] + [tuple(rnd.sample(vals, 2)) for _ in range(40)] + [tuple(rnd.sample(vals, 3)) for _ in range(20)]
         for g in groups:
-            t = infer.infer(g, k)
             key = "%s|%d" % (infer.short(g, 100), k)
+            try:
+                t = infer.infer(g, k)
+            except Exception as e:      # noqa
+                H.violation("monkeytype.typing:get_type", "infer-raises:%s:%s" % (key, type(e).__name__), "inference raises", {"values": infer.short(g, 300), "k": k}, repr(e))
+                continue
             problems = []
             if not spec_c.td_ok(t, k):
                 problems.append("inferred type %r" % (t,))
